@@ -124,6 +124,19 @@ func checkFullReadBeforeReturn(p *Program, r *Result, fn *ssa.Function, dataIdx,
 				okRead = true
 			}
 		}
+		// the full read may be delegated to a helper that is handed the slice: the helper must return a nil error only
+		// after io.ReadFull into that parameter
+		for _, ci := range callsIn(fn, func(ssa.CallInstruction) bool { return true }) {
+			g := ci.Common().StaticCallee()
+			if g == nil || !p.transparent(g) || !instrDominates(ci, ret) {
+				continue
+			}
+			for i, a := range ci.Common().Args {
+				if sameOrPhi(a, data) && i < len(g.Params) && helperFullyReads(g, g.Params[i]) {
+					okRead = true
+				}
+			}
+		}
 		if okRead {
 			r.held("C09.b", fname, construct, p.pos(ret.Pos()), "dominated by io.ReadFull into the returned slice")
 		} else {
@@ -132,4 +145,37 @@ func checkFullReadBeforeReturn(p *Program, r *Result, fn *ssa.Function, dataIdx,
 		}
 	}
 	_ = token.ADD
+}
+
+// helperFullyReads: every return of g whose error may be nil is dominated by an io.ReadFull into prm.
+func helperFullyReads(g *ssa.Function, prm *ssa.Parameter) bool {
+	var reads []ssa.CallInstruction
+	for _, ci := range callsIn(g, func(ci ssa.CallInstruction) bool { return calleeIs(ci, "io.ReadFull") }) {
+		if sameOrPhi(ci.Common().Args[1], prm) {
+			reads = append(reads, ci)
+		}
+	}
+	if len(reads) == 0 {
+		return false
+	}
+	for _, in := range instrsOf(g) {
+		ret, ok := in.(*ssa.Return)
+		if !ok || len(ret.Results) == 0 {
+			continue
+		}
+		e := ret.Results[len(ret.Results)-1]
+		if !isNilConst(e) && errKnownNonNil(ret, e) {
+			continue
+		}
+		dom := false
+		for _, rd := range reads {
+			if instrDominates(rd, ret) {
+				dom = true
+			}
+		}
+		if !dom {
+			return false
+		}
+	}
+	return true
 }
